@@ -49,7 +49,7 @@ def _sets(name, sets):
     out = ["Definition %s : list fset := [" % name]
     items = []
     for f in sets:
-        items.append("  {| f_name := %s; f_sigs := [\n      %s] |}" % (_qs(f["name"]), ";\n      ".join(_sig(s) for s in f["sigs"])))
+        items.append("  (* %s *) {| f_sigs := [\n      %s] |}" % (f["name"].replace("*", "<star>"), ";\n      ".join(_sig(s) for s in f["sigs"])))
     out.append(";\n".join(items))
     out.append("].")
     return "\n".join(out)
@@ -77,6 +77,8 @@ def render(d, src):
     lines.append("].")
     lines.append(_sets("scalar_sets", d["scalar"]))
     lines.append(_sets("aggregate_sets", d["aggregate"]))
+    lines.append("Definition scalar_names : list string := [%s]." % "; ".join(_qs(f["name"]) for f in d["scalar"]))
+    lines.append("Definition aggregate_names : list string := [%s]." % "; ".join(_qs(f["name"]) for f in d["aggregate"]))
     lines.append("")
     return "\n".join(lines)
 
